@@ -1,10 +1,1020 @@
-// Package c17: harness for property C17 (stub until built).
+// Package c17: gauge voting, epochs and the per-block emission split of x/liquidityincentive,
+// driven on the real application.
+//
+// Staking graphs are built with the real staking message server (delegate / undelegate /
+// create-validator) and the staking keeper's Slash / Jail; gauge votes go through the real
+// MsgVoteGauge handler; liquidity pools and positions through the real liquiditypool handlers.
+// Case kinds:
+//   CVote   one MsgVoteGauge (valid and malformed) with the vote store before and after
+//   CTally  one call of Keeper.Tally on the current staking graph and votes
+//   CBegin  one call of Keeper.BeginBlocker on a chosen fee-collector balance (cache context)
+//   CBlock  one real FinalizeBlock+Commit: emission at its begin, epoch creation/pruning at its end
 package c17
 
-import "fmt"
+import (
+	"fmt"
+	"math/big"
+	"sort"
+	"strings"
+	"time"
 
-// Run generates n cases from seed, runs them on the real application and writes
-// cases_*.v and stats.json into outDir.
+	sdkmath "cosmossdk.io/math"
+	stakingkeeper "cosmossdk.io/x/staking/keeper"
+	stakingtypes "cosmossdk.io/x/staking/types"
+	"github.com/cosmos/cosmos-sdk/crypto/keys/ed25519"
+	sdk "github.com/cosmos/cosmos-sdk/types"
+	authtypes "github.com/cosmos/cosmos-sdk/x/auth/types"
+
+	likeeper "github.com/sunriselayer/sunrise/x/liquidityincentive/keeper"
+	litypes "github.com/sunriselayer/sunrise/x/liquidityincentive/types"
+	lpkeeper "github.com/sunriselayer/sunrise/x/liquiditypool/keeper"
+	lptypes "github.com/sunriselayer/sunrise/x/liquiditypool/types"
+
+	"verifharness/apph"
+	"verifharness/emit"
+)
+
+const bond = "uvrise"
+
+type world struct {
+	h      *apph.H
+	ids    map[string]int64
+	nextID int64
+	stk    stakingtypes.MsgServer
+	li     litypes.MsgServer
+	lp     lptypes.MsgServer
+	nvals  int
+	npools uint64
+	st     *emit.Stats
+	log    []string
+	feeCol sdk.AccAddress
+}
+
+func newWorld(numVals, numAccts int, st *emit.Stats) *world {
+	h := apph.New(apph.Options{NumAccounts: numAccts, NumValidators: numVals})
+	w := &world{h: h, ids: map[string]int64{}, nextID: 1, st: st, nvals: numVals}
+	w.stk = stakingkeeper.NewMsgServerImpl(h.App.StakingKeeper)
+	w.li = likeeper.NewMsgServerImpl(h.App.LiquidityincentiveKeeper)
+	w.lp = lpkeeper.NewMsgServerImpl(h.App.LiquiditypoolKeeper)
+	w.feeCol = authtypes.NewModuleAddress(authtypes.FeeCollectorName)
+	return w
+}
+
+func (w *world) id(addr []byte) int64 {
+	k := string(addr)
+	if v, ok := w.ids[k]; ok {
+		return v
+	}
+	w.ids[k] = w.nextID
+	w.nextID++
+	return w.ids[k]
+}
+func (w *world) note(format string, a ...any) { w.log = append(w.log, fmt.Sprintf(format, a...)) }
+func (w *world) takeLog() []string            { l := w.log; w.log = nil; return l }
+
+func raw(d sdkmath.LegacyDec) *big.Int { return d.BigInt() }
+func pair(a, b string) string         { return "(" + a + ", " + b + ")" }
+
+// ---- pools ----
+
+func (w *world) createPool(base, quote string) (uint64, error) {
+	var id uint64
+	err := apph.Tx(w.h.Ctx(), func(ctx sdk.Context) error {
+		r, e := w.lp.CreatePool(ctx, &lptypes.MsgCreatePool{Authority: w.h.Accts[0].Addr.String(), DenomBase: base, DenomQuote: quote,
+			FeeRate: "0.01", PriceRatio: "1.0001", BaseOffset: "0.5"})
+		if e == nil {
+			id = r.Id
+		}
+		return e
+	})
+	w.note("create-pool %s/%s id=%d err=%v", base, quote, id, err)
+	if err == nil {
+		w.npools++
+	}
+	return id, err
+}
+
+func (w *world) createPosition(owner sdk.AccAddress, pool uint64, lower, upper int64, base, quote string, amt int64) (uint64, error) {
+	var id uint64
+	err := apph.Tx(w.h.Ctx(), func(ctx sdk.Context) error {
+		r, e := w.lp.CreatePosition(ctx, &lptypes.MsgCreatePosition{Sender: owner.String(), PoolId: pool, LowerTick: lower, UpperTick: upper,
+			TokenBase: sdk.NewInt64Coin(base, amt), TokenQuote: sdk.NewInt64Coin(quote, amt), MinAmountBase: sdkmath.ZeroInt(), MinAmountQuote: sdkmath.ZeroInt()})
+		if e == nil {
+			id = r.Id
+		}
+		return e
+	})
+	w.note("create-position pool=%d [%d,%d) id=%d err=%v", pool, lower, upper, id, err)
+	return id, err
+}
+
+// status of a pool as liquiditypool's AllocateIncentive will treat a positive allocation:
+// PoolErr (missing / no position), PoolZeroLiq (positions but zero in-range liquidity), PoolOk
+func (w *world) poolStatus(ctx sdk.Context, id uint64) string {
+	p, found, err := w.h.App.LiquiditypoolKeeper.GetPool(ctx, id)
+	if err != nil || !found || !p.HasPosition(ctx) {
+		return "PoolErr"
+	}
+	liq, err := sdkmath.LegacyNewDecFromStr(p.CurrentTickLiquidity)
+	if err != nil {
+		return "PoolErr"
+	}
+	if liq.IsZero() {
+		return "PoolZeroLiq"
+	}
+	return "PoolOk"
+}
+
+func (w *world) feesBal(ctx sdk.Context, pool uint64) sdkmath.Int {
+	return w.h.Bal(ctx, lptypes.NewPoolFeesAddress(pool), bond)
+}
+
+// ---- staking graph operations ----
+
+func (w *world) allVals() []stakingtypes.Validator {
+	vs, err := w.h.App.StakingKeeper.GetAllValidators(w.h.Ctx())
+	if err != nil {
+		panic(err)
+	}
+	sort.Slice(vs, func(i, j int) bool { return vs[i].OperatorAddress < vs[j].OperatorAddress })
+	return vs
+}
+func (w *world) valBytes(v stakingtypes.Validator) []byte {
+	bz, err := w.h.App.StakingKeeper.ValidatorAddressCodec().StringToBytes(v.OperatorAddress)
+	if err != nil {
+		panic(err)
+	}
+	return bz
+}
+func (w *world) delegate(from sdk.AccAddress, val string, amt sdkmath.Int) error {
+	err := apph.Tx(w.h.Ctx(), func(ctx sdk.Context) error {
+		_, e := w.stk.Delegate(ctx, &stakingtypes.MsgDelegate{DelegatorAddress: from.String(), ValidatorAddress: val, Amount: sdk.NewCoin(bond, amt)})
+		return e
+	})
+	w.note("delegate %s -> %s %s err=%v", from, val, amt, err)
+	return err
+}
+func (w *world) undelegate(from sdk.AccAddress, val string, amt sdkmath.Int) error {
+	err := apph.Tx(w.h.Ctx(), func(ctx sdk.Context) error {
+		_, e := w.stk.Undelegate(ctx, &stakingtypes.MsgUndelegate{DelegatorAddress: from.String(), ValidatorAddress: val, Amount: sdk.NewCoin(bond, amt)})
+		return e
+	})
+	w.note("undelegate %s -> %s %s err=%v", from, val, amt, err)
+	return err
+}
+func (w *world) slash(v stakingtypes.Validator, frac sdkmath.LegacyDec) error {
+	cons, err := v.GetConsAddr()
+	if err != nil {
+		return err
+	}
+	err = apph.Tx(w.h.Ctx(), func(ctx sdk.Context) error {
+		power := v.GetConsensusPower(w.h.App.StakingKeeper.PowerReduction(ctx))
+		_, e := w.h.App.StakingKeeper.Slash(ctx, cons, w.h.Height, power, frac)
+		return e
+	})
+	w.note("slash %s by %s err=%v", v.OperatorAddress, frac, err)
+	return err
+}
+func (w *world) jail(v stakingtypes.Validator, unjail bool) error {
+	cons, err := v.GetConsAddr()
+	if err != nil {
+		return err
+	}
+	err = apph.Tx(w.h.Ctx(), func(ctx sdk.Context) error {
+		if unjail {
+			return w.h.App.StakingKeeper.Unjail(ctx, cons)
+		}
+		return w.h.App.StakingKeeper.Jail(ctx, cons)
+	})
+	w.note("jail(unjail=%v) %s err=%v", unjail, v.OperatorAddress, err)
+	return err
+}
+func (w *world) createValidator(op sdk.AccAddress, amt sdkmath.Int) error {
+	pk := ed25519.GenPrivKeyFromSecret([]byte(fmt.Sprintf("verif-c17-newval-%d", w.nvals))).PubKey()
+	valStr, err := w.h.App.StakingKeeper.ValidatorAddressCodec().BytesToString(op)
+	if err != nil {
+		return err
+	}
+	msg, err := stakingtypes.NewMsgCreateValidator(valStr, pk, sdk.NewCoin(bond, amt),
+		stakingtypes.Description{Moniker: fmt.Sprintf("v%d", w.nvals)},
+		stakingtypes.NewCommissionRates(sdkmath.LegacyNewDecWithPrec(1, 1), sdkmath.LegacyNewDecWithPrec(2, 1), sdkmath.LegacyNewDecWithPrec(1, 2)),
+		sdkmath.OneInt())
+	if err != nil {
+		return err
+	}
+	err = apph.Tx(w.h.Ctx(), func(ctx sdk.Context) error {
+		_, e := w.stk.CreateValidator(ctx, msg)
+		return e
+	})
+	w.note("create-validator %s %s err=%v", valStr, amt, err)
+	if err == nil {
+		w.nvals++
+	}
+	return err
+}
+
+func (w *world) amount(r *emit.Rand) sdkmath.Int {
+	switch r.Intn(6) {
+	case 0:
+		return sdkmath.NewInt(int64(1 + r.Intn(9)))
+	case 1:
+		return sdkmath.NewInt(1_000_000 * int64(1+r.Intn(50)))
+	default:
+		return sdkmath.NewIntFromBigInt(r.LogUniform(13))
+	}
+}
+
+func (w *world) mutate(r *emit.Rand) {
+	vals := w.allVals()
+	v := vals[r.Intn(len(vals))]
+	a := w.h.Accts[r.Intn(len(w.h.Accts))].Addr
+	kind := r.Intn(14)
+	var err error
+	var name string
+	switch {
+	case kind < 7:
+		name = "delegate"
+		err = w.delegate(a, v.OperatorAddress, w.amount(r))
+	case kind < 9:
+		name = "undelegate"
+		ds, _ := w.h.App.StakingKeeper.GetDelegatorDelegations(w.h.Ctx(), a, 50)
+		if len(ds) == 0 {
+			return
+		}
+		d := ds[r.Intn(len(ds))]
+		vb, _ := w.h.App.StakingKeeper.ValidatorAddressCodec().StringToBytes(d.ValidatorAddress)
+		vv, e := w.h.App.StakingKeeper.GetValidator(w.h.Ctx(), vb)
+		if e != nil {
+			return
+		}
+		tok := vv.TokensFromShares(d.Shares).TruncateInt()
+		if !tok.IsPositive() {
+			return
+		}
+		amt := tok
+		if r.Chance(2, 3) {
+			amt = sdkmath.NewIntFromBigInt(r.Big(tok.BigInt())).AddRaw(1)
+			if amt.GT(tok) {
+				amt = tok
+			}
+		}
+		err = w.undelegate(a, d.ValidatorAddress, amt)
+	case kind < 11:
+		name = "slash"
+		if !v.IsBonded() {
+			return
+		}
+		err = w.slash(v, sdkmath.LegacyMustNewDecFromStr(emit.Pick(r, "0.01", "0.05", "0.333333333333333333", "0.000001", "0.5", "0.123456789012345678")))
+	case kind < 12:
+		name = "jail"
+		nb := 0
+		for _, x := range vals {
+			if x.IsBonded() && !x.Jailed {
+				nb++
+			}
+		}
+		if v.Jailed {
+			err = w.jail(v, true)
+		} else if nb > 2 {
+			err = w.jail(v, false)
+		} else {
+			return
+		}
+	default:
+		name = "create-validator"
+		for _, acc := range w.h.Accts {
+			if _, e := w.h.App.StakingKeeper.GetValidator(w.h.Ctx(), []byte(acc.Addr)); e != nil {
+				err = w.createValidator(acc.Addr, w.amount(r).AddRaw(1_000_000))
+				break
+			}
+		}
+	}
+	if err != nil {
+		w.st.Count("graph:" + name + ":err")
+	} else {
+		w.st.Count("graph:" + name + ":ok")
+	}
+}
+
+// ---- observations ----
+
+// graph dumps what Keeper.Tally reads: bonded validators, the stored votes in store order with
+// the voters' delegations, TotalBondedTokens.
+type graphObs struct {
+	vals, ballots      string
+	valsH, ballotsH    []string
+	bonded             sdkmath.Int
+	valAndDelegator    bool // a validator and one of its delegators both voted
+	overlap            bool // two voters named the same pool
+	partial            bool // some vote with total weight < 1
+	nvotes, ndelegVote int
+}
+
+func (w *world) graph(ctx sdk.Context) graphObs {
+	sk := w.h.App.StakingKeeper
+	var g graphObs
+	bondedSet := map[string]bool{}
+	var vt []string
+	if err := sk.IterateBondedValidatorsByPower(ctx, func(_ int64, v sdk.ValidatorI) bool {
+		bz, err := sk.ValidatorAddressCodec().StringToBytes(v.GetOperator())
+		if err != nil {
+			panic(err)
+		}
+		bondedSet[v.GetOperator()] = true
+		vt = append(vt, fmt.Sprintf("{| v_id := %d; v_tok := %s; v_sh := %s |}", w.id(bz), emit.Z(v.GetBondedTokens().BigInt()), emit.Z(raw(v.GetDelegatorShares()))))
+		g.valsH = append(g.valsH, fmt.Sprintf("%d:%s tokens=%s shares=%s", w.id(bz), v.GetOperator(), v.GetBondedTokens(), v.GetDelegatorShares()))
+		return false
+	}); err != nil {
+		panic(err)
+	}
+	votes, err := w.h.App.LiquidityincentiveKeeper.GetAllVotes(ctx)
+	if err != nil {
+		panic(err)
+	}
+	votedVals := map[string]bool{}
+	delegTargets := map[string]bool{}
+	poolSeen := map[uint64]int{}
+	var bt []string
+	for _, vote := range votes {
+		voter := sdk.MustAccAddressFromBech32(vote.Sender)
+		var ws, wh []string
+		tot := sdkmath.LegacyZeroDec()
+		pools := map[uint64]bool{}
+		for _, pw := range vote.PoolWeights {
+			wd, err := sdkmath.LegacyNewDecFromStr(pw.Weight)
+			if err != nil {
+				panic(err)
+			}
+			tot = tot.Add(wd)
+			ws = append(ws, pair(fmt.Sprint(pw.PoolId), emit.Z(raw(wd))))
+			wh = append(wh, fmt.Sprintf("%d:%s", pw.PoolId, pw.Weight))
+			pools[pw.PoolId] = true
+		}
+		for p := range pools {
+			poolSeen[p]++
+		}
+		if tot.LT(sdkmath.LegacyOneDec()) && len(vote.PoolWeights) > 0 {
+			g.partial = true
+		}
+		var dt, dh []string
+		hasBonded := false
+		if err := sk.IterateDelegations(ctx, voter, func(_ int64, d sdk.DelegationI) bool {
+			bz, err := sk.ValidatorAddressCodec().StringToBytes(d.GetValidatorAddr())
+			if err != nil {
+				panic(err)
+			}
+			dt = append(dt, pair(emit.ZI(w.id(bz)), emit.Z(raw(d.GetShares()))))
+			dh = append(dh, fmt.Sprintf("%d:%s", w.id(bz), d.GetShares()))
+			if bondedSet[d.GetValidatorAddr()] {
+				hasBonded = true
+				valStr, _ := sk.ValidatorAddressCodec().BytesToString(voter)
+				if valStr != d.GetValidatorAddr() {
+					delegTargets[d.GetValidatorAddr()] = true
+				}
+			}
+			return false
+		}); err != nil {
+			panic(err)
+		}
+		valStr, _ := sk.ValidatorAddressCodec().BytesToString(voter)
+		if bondedSet[valStr] && len(vote.PoolWeights) > 0 {
+			votedVals[valStr] = true
+		}
+		if hasBonded {
+			g.ndelegVote++
+		}
+		g.nvotes++
+		bt = append(bt, fmt.Sprintf("{| b_voter := %d; b_w := %s; b_dels := %s |}", w.id(voter), emit.List(ws), emit.List(dt)))
+		g.ballotsH = append(g.ballotsH, fmt.Sprintf("voter %d:%s weights=[%s] dels=[%s]", w.id(voter), voter, strings.Join(wh, " "), strings.Join(dh, " ")))
+	}
+	for v := range votedVals {
+		if delegTargets[v] {
+			g.valAndDelegator = true
+		}
+	}
+	for _, n := range poolSeen {
+		if n > 1 {
+			g.overlap = true
+		}
+	}
+	g.vals, g.ballots = emit.List(vt), emit.List(bt)
+	g.bonded, err = sk.TotalBondedTokens(ctx)
+	if err != nil {
+		panic(err)
+	}
+	return g
+}
+
+func gaugeTerm(g litypes.Gauge) string {
+	return fmt.Sprintf("{| g_prev := %d; g_pool := %d; g_count := %s |}", g.PreviousEpochId, g.PoolId, emit.Z(g.Count.BigInt()))
+}
+func gaugesTerm(gs []litypes.Gauge) string {
+	ts := make([]string, len(gs))
+	for i, g := range gs {
+		ts[i] = gaugeTerm(g)
+	}
+	return emit.List(ts)
+}
+func epochTerm(e litypes.Epoch) string {
+	return fmt.Sprintf("{| e_id := %d; e_start := %d; e_end := %d; e_gauges := %s |}", e.Id, e.StartBlock, e.EndBlock, gaugesTerm(e.Gauges))
+}
+
+// istate dumps the Epochs and Gauges collections
+func (w *world) istate(ctx sdk.Context) (string, []litypes.Epoch, string) {
+	k := w.h.App.LiquidityincentiveKeeper
+	es, err := k.GetAllEpoch(ctx)
+	if err != nil {
+		panic(err)
+	}
+	gs, err := k.GetAllGauges(ctx)
+	if err != nil {
+		panic(err)
+	}
+	ets := make([]string, len(es))
+	hs := []string{}
+	for i, e := range es {
+		ets[i] = epochTerm(e)
+		hs = append(hs, fmt.Sprintf("epoch %d [%d,%d) %d gauges", e.Id, e.StartBlock, e.EndBlock, len(e.Gauges)))
+	}
+	return fmt.Sprintf("{| s_epochs := %s; s_gauges := %s |}", emit.List(ets), gaugesTerm(gs)), es, strings.Join(hs, "; ") + fmt.Sprintf(" | %d stored gauges", len(gs))
+}
+
+func (w *world) statusFn(ctx sdk.Context, gs []litypes.Gauge) (string, []string) {
+	// a Coq function pool id -> status, as nested ifs over the gauge pools
+	s := "PoolErr"
+	var hs []string
+	seen := map[uint64]bool{}
+	for _, g := range gs {
+		if seen[g.PoolId] {
+			continue
+		}
+		seen[g.PoolId] = true
+		ps := w.poolStatus(ctx, g.PoolId)
+		hs = append(hs, fmt.Sprintf("%d:%s", g.PoolId, ps))
+		s = fmt.Sprintf("if p =? %d then %s else %s", g.PoolId, ps, s)
+	}
+	return "(fun p => " + s + ")", hs
+}
+
+// ---- cases ----
+
+type caseOut struct {
+	term    string
+	info    map[string]any
+	kind    string
+	outcome string
+	nontriv string
+}
+
+func (w *world) record(cf *emit.CasesFile, c caseOut) {
+	cf.Add(c.term)
+	w.st.Info(c.info)
+	w.st.Evaluations++
+	w.st.Count(c.kind + ":" + c.outcome)
+	if c.nontriv != "" {
+		w.st.Nontriv(c.nontriv)
+		w.st.Count("nontrivial:" + c.kind)
+		w.st.Sample(c.info)
+	}
+}
+
+type weightSpec struct {
+	pool   uint64
+	weight string
+}
+
+// one MsgVoteGauge through the real handler
+func (w *world) voteCase(sender string, senderAddr sdk.AccAddress, ws []weightSpec, tag string) caseOut {
+	k := w.h.App.LiquidityincentiveKeeper
+	ctx := w.h.Ctx()
+	dump := func() (string, []string) {
+		votes, err := k.GetAllVotes(ctx)
+		if err != nil {
+			panic(err)
+		}
+		type ent struct {
+			id int64
+			t  string
+			h  string
+		}
+		var es []ent
+		for _, v := range votes {
+			a := sdk.MustAccAddressFromBech32(v.Sender)
+			var ps, ph []string
+			for _, pw := range v.PoolWeights {
+				d, err := sdkmath.LegacyNewDecFromStr(pw.Weight)
+				if err != nil {
+					panic(err)
+				}
+				ps = append(ps, pair(fmt.Sprint(pw.PoolId), emit.Z(raw(d))))
+				ph = append(ph, fmt.Sprintf("%d:%s", pw.PoolId, pw.Weight))
+			}
+			es = append(es, ent{w.id(a), pair(emit.ZI(w.id(a)), emit.List(ps)), fmt.Sprintf("%d=[%s]", w.id(a), strings.Join(ph, " "))})
+		}
+		sort.Slice(es, func(i, j int) bool { return es[i].id < es[j].id })
+		var ts, hs []string
+		for _, e := range es {
+			ts = append(ts, e.t)
+			hs = append(hs, e.h)
+		}
+		return emit.List(ts), hs
+	}
+	var pools []string
+	for i := uint64(0); i < w.npools+3; i++ {
+		if _, found, _ := w.h.App.LiquiditypoolKeeper.GetPool(ctx, i); found {
+			pools = append(pools, fmt.Sprint(i))
+		}
+	}
+	pre, preH := dump()
+	msg := &litypes.MsgVoteGauge{Sender: sender}
+	var wts, wh []string
+	for _, x := range ws {
+		msg.PoolWeights = append(msg.PoolWeights, litypes.PoolWeight{PoolId: x.pool, Weight: x.weight})
+		d, err := sdkmath.LegacyNewDecFromStr(x.weight)
+		if err != nil {
+			wts = append(wts, pair(fmt.Sprint(x.pool), emit.None()))
+		} else {
+			wts = append(wts, pair(fmt.Sprint(x.pool), emit.Some(emit.Z(raw(d)))))
+		}
+		wh = append(wh, fmt.Sprintf("%d:%q", x.pool, x.weight))
+	}
+	err := apph.Tx(ctx, func(ctx sdk.Context) error {
+		_, e := w.li.VoteGauge(ctx, msg)
+		return e
+	})
+	post, postH := dump()
+	obs, outcome := "(Ok tt)", "ok"
+	info := map[string]any{"kind": "vote", "tag": tag, "sender": sender, "weights": wh, "votes_before": preH, "votes_after": postH, "pools": pools}
+	if err != nil {
+		info["err"] = err.Error()
+		switch {
+		case strings.HasPrefix(err.Error(), "panic:"):
+			obs, outcome = "Panic", "panic"
+		case strings.Contains(err.Error(), litypes.ErrInvalidWeight.Error()):
+			obs, outcome = "(Err 3)", "err:invalid-weight"
+		case strings.Contains(err.Error(), litypes.ErrTotalWeightGTOne.Error()):
+			obs, outcome = "(Err 2)", "err:total>1"
+		case strings.Contains(err.Error(), lptypes.ErrPoolNotFound.Error()):
+			obs, outcome = "(Err 1101)", "err:pool-not-found"
+		case strings.Contains(err.Error(), "invalid sender address"):
+			obs, outcome = "(Err 1)", "err:sender"
+		default:
+			obs, outcome = "(Err 0)", "err:other"
+		}
+	}
+	sid := int64(0)
+	if senderAddr != nil {
+		sid = w.id(senderAddr)
+	}
+	term := fmt.Sprintf("CVote {| vc_sender_ok := %s; vc_pools := %s; vc_pre := %s; vc_sender := %d; vc_weights := %s; vc_obs := %s; vc_post := %s |}",
+		emit.Bool(senderAddr != nil), emit.List(pools), pre, sid, emit.List(wts), obs, post)
+	c := caseOut{term: term, info: info, kind: "vote", outcome: outcome}
+	return c
+}
+
+// one call of Keeper.Tally
+func (w *world) tallyCase(tag string) caseOut {
+	ctx, _ := w.h.Ctx().CacheContext()
+	g := w.graph(ctx)
+	info := map[string]any{"kind": "tally", "tag": tag, "graph_ops": w.takeLog(), "validators": g.valsH, "votes": g.ballotsH, "total_bonded": g.bonded.String()}
+	obs, outcome := "", "ok"
+	func() {
+		defer func() {
+			if r := recover(); r != nil {
+				obs, outcome = "Panic", "panic"
+				info["panic"] = fmt.Sprint(r)
+			}
+		}()
+		res, err := w.h.App.LiquidityincentiveKeeper.Tally(ctx)
+		if err != nil {
+			obs, outcome = "(Err 1)", "err"
+			info["err"] = err.Error()
+			return
+		}
+		var ts, hs []string
+		for _, r := range res {
+			ts = append(ts, pair(fmt.Sprint(r.PoolId), emit.Z(r.Count.BigInt())))
+			hs = append(hs, fmt.Sprintf("%d:%s", r.PoolId, r.Count))
+		}
+		obs = "(Ok " + emit.List(ts) + ")"
+		info["result"] = hs
+	}()
+	c := caseOut{kind: "tally", outcome: outcome, info: info}
+	c.term = fmt.Sprintf("CTally {| tc_vals := %s; tc_ballots := %s; tc_bonded := %s; tc_obs := %s |}", g.vals, g.ballots, emit.Z(g.bonded.BigInt()), obs)
+	if g.valAndDelegator {
+		w.st.Count("tally:validator-and-own-delegator-voted")
+		c.nontriv = fmt.Sprintf("tally/%d/%d/%v/%v/%s", g.nvotes, g.ndelegVote, g.overlap, g.partial, g.bonded)
+	}
+	if g.overlap {
+		w.st.Count("tally:overlapping-pools")
+	}
+	if g.partial {
+		w.st.Count("tally:partial-weights")
+	}
+	return c
+}
+
+func (w *world) setFeeCollector(ctx sdk.Context, target sdkmath.Int) {
+	cur := w.h.Bal(ctx, w.feeCol, bond)
+	if target.GT(cur) {
+		d := target.Sub(cur)
+		if err := w.h.App.BankKeeper.SendCoinsFromAccountToModule(ctx, w.h.Accts[0].Addr, authtypes.FeeCollectorName, sdk.NewCoins(sdk.NewCoin(bond, d))); err != nil {
+			panic(err)
+		}
+	} else if target.LT(cur) {
+		d := cur.Sub(target)
+		if err := w.h.App.BankKeeper.SendCoinsFromModuleToAccount(ctx, authtypes.FeeCollectorName, w.h.Accts[0].Addr, sdk.NewCoins(sdk.NewCoin(bond, d))); err != nil {
+			panic(err)
+		}
+	}
+}
+
+func lastEpochTerm(es []litypes.Epoch) (string, *litypes.Epoch) {
+	if len(es) == 0 {
+		return emit.None(), nil
+	}
+	e := es[len(es)-1]
+	return emit.Some(epochTerm(e)), &e
+}
+
+func indivisible(balance sdkmath.Int, e *litypes.Epoch) bool {
+	if e == nil || !balance.IsPositive() {
+		return false
+	}
+	tot := sdkmath.ZeroInt()
+	for _, g := range e.Gauges {
+		tot = tot.Add(g.Count)
+	}
+	if !tot.IsPositive() {
+		return false
+	}
+	for _, g := range e.Gauges {
+		if !balance.Mul(g.Count).Mod(tot).IsZero() {
+			return true
+		}
+	}
+	return false
+}
+
+// one call of Keeper.BeginBlocker with a chosen fee-collector balance, in a discarded context.
+// lastOverride, when not nil, replaces the stored epochs (used for the rounded-weights witness).
+func (w *world) beginCase(balance sdkmath.Int, lastOverride *litypes.Epoch, tag string) caseOut {
+	ctx, _ := w.h.Ctx().CacheContext()
+	k := w.h.App.LiquidityincentiveKeeper
+	if lastOverride != nil {
+		if err := k.SetEpoch(ctx, *lastOverride); err != nil {
+			panic(err)
+		}
+	}
+	w.setFeeCollector(ctx, balance)
+	_, es, esH := w.istate(ctx)
+	lastT, last := lastEpochTerm(es)
+	var gs []litypes.Gauge
+	if last != nil {
+		gs = last.Gauges
+	}
+	statusT, statusH := w.statusFn(ctx, gs)
+	pre := make([]sdkmath.Int, len(gs))
+	for i, g := range gs {
+		pre[i] = w.feesBal(ctx, g.PoolId)
+	}
+	info := map[string]any{"kind": "begin", "tag": tag, "fee_collector_uvrise": balance.String(), "epochs": esH, "pool_status": statusH}
+	obs, outcome := "", "ok"
+	func() {
+		defer func() {
+			if r := recover(); r != nil {
+				obs, outcome = "Panic", "panic"
+				info["panic"] = fmt.Sprint(r)
+			}
+		}()
+		if err := k.BeginBlocker(ctx); err != nil {
+			obs, outcome = "(Err 1)", "err"
+			info["err"] = err.Error()
+			return
+		}
+		var ts, hs []string
+		for i, g := range gs {
+			d := w.feesBal(ctx, g.PoolId).Sub(pre[i])
+			ts = append(ts, emit.Z(d.BigInt()))
+			hs = append(hs, fmt.Sprintf("pool %d (count %s): +%s", g.PoolId, g.Count, d))
+		}
+		rem := w.h.Bal(ctx, w.feeCol, bond)
+		obs = fmt.Sprintf("(Ok (%s, %s))", emit.List(ts), emit.Z(rem.BigInt()))
+		info["transfers"] = hs
+		info["fee_collector_after"] = rem.String()
+	}()
+	c := caseOut{kind: "begin", outcome: outcome, info: info}
+	c.term = fmt.Sprintf("CBegin {| bc_balance := %s; bc_last := %s; bc_status := %s; bc_obs := %s |}", emit.Z(balance.BigInt()), lastT, statusT, obs)
+	if indivisible(balance, last) {
+		w.st.Count("begin:emission-not-divisible")
+		c.nontriv = fmt.Sprintf("begin/%s/%s", balance, lastT)
+	}
+	return c
+}
+
+// one real block
+func (w *world) blockCase(dt time.Duration, tag string) caseOut {
+	h := w.h
+	k := h.App.LiquidityincentiveKeeper
+	ctx := h.Ctx()
+	preT, es, esH := w.istate(ctx)
+	_, last := lastEpochTerm(es)
+	var gs []litypes.Gauge
+	if last != nil {
+		gs = last.Gauges
+	}
+	statusT, statusH := w.statusFn(ctx, gs)
+	balance := h.Bal(ctx, w.feeCol, bond)
+	pre := make([]sdkmath.Int, len(gs))
+	for i, g := range gs {
+		pre[i] = w.feesBal(ctx, g.PoolId)
+	}
+	params, err := k.Params.Get(ctx)
+	if err != nil {
+		panic(err)
+	}
+	info := map[string]any{"kind": "block", "tag": tag, "graph_ops": w.takeLog(), "fee_collector_uvrise": balance.String(), "epochs_before": esH,
+		"pool_status": statusH, "epoch_blocks": params.EpochBlocks}
+	_, berr := h.NextBlock(dt)
+	height := h.Height
+	info["height"] = height
+	obs, outcome := "", "ok"
+	ctx = h.Ctx()
+	g := w.graph(ctx)
+	postT, es2, esH2 := w.istate(ctx)
+	if berr != nil {
+		info["block_error"] = berr.Error()
+		if strings.HasPrefix(berr.Error(), "panic:") {
+			obs, outcome = "Panic", "panic"
+		} else {
+			obs, outcome = "(Err 1)", "err"
+		}
+	} else {
+		var ts, hs []string
+		for i, gg := range gs {
+			d := w.feesBal(ctx, gg.PoolId).Sub(pre[i])
+			ts = append(ts, emit.Z(d.BigInt()))
+			hs = append(hs, fmt.Sprintf("pool %d (count %s): +%s", gg.PoolId, gg.Count, d))
+		}
+		obs = fmt.Sprintf("(Ok (%s, %s))", emit.List(ts), postT)
+		info["transfers"] = hs
+		info["epochs_after"] = esH2
+		info["validators"] = g.valsH
+		info["votes"] = g.ballotsH
+	}
+	c := caseOut{kind: "block", outcome: outcome, info: info}
+	c.term = fmt.Sprintf("CBlock {| kc_pre := %s; kc_balance := %s; kc_status := %s; kc_height := %d; kc_epoch_blocks := %d; kc_vals := %s; kc_ballots := %s; kc_bonded := %s; kc_obs := %s |}",
+		preT, emit.Z(balance.BigInt()), statusT, height, params.EpochBlocks, g.vals, g.ballots, emit.Z(g.bonded.BigInt()), obs)
+	created := len(es2) > 0 && (len(es) == 0 || es2[len(es2)-1].Id != es[len(es)-1].Id)
+	if created {
+		w.st.Count("block:epoch-created")
+		if len(es) == 2 {
+			w.st.Count("block:epoch-pruned")
+		}
+	}
+	if indivisible(balance, last) && g.valAndDelegator {
+		c.nontriv = fmt.Sprintf("block/%d/%s/%v", height, balance, created)
+	}
+	if indivisible(balance, last) {
+		w.st.Count("block:emission-not-divisible")
+	}
+	return c
+}
+
+// ---- generators ----
+
+func genWeights(r *emit.Rand, npools uint64, malformed bool) []weightSpec {
+	k := emit.Pick(r, 0, 1, 1, 2, 2, 3, 4)
+	one := new(big.Int).Exp(big.NewInt(10), big.NewInt(18), nil)
+	var ws []weightSpec
+	// total in (0,1], split over k entries; pools may repeat
+	total := new(big.Int).Set(one)
+	if r.Chance(1, 2) {
+		total = r.Big(one)
+		total.Add(total, big.NewInt(1))
+	}
+	left := new(big.Int).Set(total)
+	for i := 0; i < k; i++ {
+		var x *big.Int
+		if i == k-1 {
+			x = new(big.Int).Set(left)
+		} else {
+			x = r.Big(new(big.Int).Add(left, big.NewInt(1)))
+			if r.Chance(1, 4) {
+				x = new(big.Int).Div(left, big.NewInt(3))
+			}
+		}
+		left.Sub(left, x)
+		s := decStr(x)
+		if r.Chance(1, 4) {
+			s = strings.TrimRight(strings.TrimRight(s, "0"), ".")
+			if s == "" {
+				s = "0"
+			}
+		}
+		ws = append(ws, weightSpec{uint64(r.Intn(int(npools))), s})
+	}
+	if malformed && len(ws) > 0 {
+		i := r.Intn(len(ws))
+		switch r.Intn(5) {
+		case 0:
+			ws[i].weight = "-" + emit.Pick(r, "0.1", "0.000000000000000001", "1")
+		case 1:
+			ws[i].weight = emit.Pick(r, "abc", "", "1e-3", "0.1234567890123456789", "NaN")
+		case 2:
+			ws[i].pool = npools + uint64(r.Intn(5))
+		case 3: // total just above one
+			ws = append(ws, weightSpec{uint64(r.Intn(int(npools))), "0.000000000000000001"})
+			ws[0].weight = "1"
+		default:
+			ws[i].weight = "1.000000000000000001"
+		}
+	}
+	return ws
+}
+
+func decStr(rawv *big.Int) string {
+	s := rawv.String()
+	for len(s) < 19 {
+		s = "0" + s
+	}
+	return s[:len(s)-18] + "." + s[len(s)-18:]
+}
+
+func (w *world) voters() []sdk.AccAddress {
+	var p []sdk.AccAddress
+	for _, a := range w.h.Accts {
+		p = append(p, a.Addr)
+	}
+	for _, v := range w.allVals() {
+		p = append(p, sdk.AccAddress(w.valBytes(v)))
+	}
+	return p
+}
+
+func (w *world) genBalance(r *emit.Rand) sdkmath.Int {
+	switch r.Intn(7) {
+	case 0:
+		return sdkmath.ZeroInt()
+	case 1:
+		return sdkmath.NewInt(int64(1 + r.Intn(20)))
+	case 2: // around the supply cap of the chain
+		return sdkmath.NewIntFromBigInt(r.LogUniform(15))
+	case 3: // far beyond the supply cap: here one 10^-18 unit of a weight is worth whole tokens,
+		// so the rounding mode of the weight quotient becomes observable
+		return sdkmath.NewIntFromBigInt(r.LogUniform(27)).Add(sdkmath.NewIntFromBigInt(new(big.Int).Exp(big.NewInt(10), big.NewInt(19), nil)))
+	default:
+		return sdkmath.NewIntFromBigInt(r.LogUniform(12))
+	}
+}
+
+// setup: four pools — 0 and 1 with in-range liquidity, 2 without any position, 3 created later
+func (w *world) setupPools() error {
+	a := w.h.Accts[0].Addr
+	for _, pq := range [][2]string{{"urise", "uusdc"}, {"uatom", "uusdc"}, {"uosmo", "uusdc"}, {"uatom", "uosmo"}} {
+		if _, err := w.createPool(pq[0], pq[1]); err != nil {
+			return err
+		}
+	}
+	if _, err := w.createPosition(a, 0, -10, 10, "urise", "uusdc", 1_000_000); err != nil {
+		return err
+	}
+	if _, err := w.createPosition(a, 1, -100, 100, "uatom", "uusdc", 5_000_000); err != nil {
+		return err
+	}
+	if _, err := w.createPosition(a, 3, -20, 20, "uatom", "uosmo", 777_777); err != nil {
+		return err
+	}
+	return nil
+}
+
+// corpus
+func corpus(cf *emit.CasesFile, st *emit.Stats) error {
+	// (1) six equal gauges and a balance of 3*10^18: the rounded weights (0.166666666666666667 each)
+	//     sum to 1 + 2e-18 and the six truncated allocations to balance + 6 (astronomic balances only)
+	{
+		w := newWorld(1, 2, st)
+		defer w.h.Close()
+		a := w.h.Accts[0].Addr
+		var gs []litypes.Gauge
+		for i := 0; i < 6; i++ {
+			id, err := w.createPool("uatom", "uusdc")
+			if err != nil {
+				return err
+			}
+			if _, err := w.createPosition(a, id, -10, 10, "uatom", "uusdc", 1_000_000); err != nil {
+				return err
+			}
+			gs = append(gs, litypes.Gauge{PreviousEpochId: 0, PoolId: id, Count: sdkmath.NewInt(1)})
+		}
+		ep := litypes.Epoch{Id: 1, StartBlock: 1, EndBlock: 1000, Gauges: gs}
+		b, _ := sdkmath.NewIntFromString("3000000000000000000")
+		w.record(cf, w.beginCase(b, &ep, "corpus:rounded-weights-sum-above-one"))
+		// the same six gauges at the chain's supply cap: no overshoot
+		w.record(cf, w.beginCase(sdkmath.NewInt(1_000_000_000_000_000), &ep, "corpus:six-equal-gauges-at-supply-cap"))
+		// counts 1 : 2 at 3*10^18: 1/3 rounds half-even down to 0.333333333333333333
+		ep2 := litypes.Epoch{Id: 1, StartBlock: 1, EndBlock: 1000, Gauges: []litypes.Gauge{
+			{PreviousEpochId: 0, PoolId: gs[0].PoolId, Count: sdkmath.NewInt(1)}, {PreviousEpochId: 0, PoolId: gs[1].PoolId, Count: sdkmath.NewInt(2)}}}
+		w.record(cf, w.beginCase(b, &ep2, "corpus:one-third-two-thirds-at-3e18"))
+	}
+	// (2) a gauge pool with positions but no in-range liquidity: the real block panics
+	{
+		w := newWorld(1, 3, st)
+		defer w.h.Close()
+		a := w.h.Accts[0].Addr
+		id, err := w.createPool("uatom", "uusdc")
+		if err != nil {
+			return err
+		}
+		// the first position fixes the price at tick 0; its range [100,200) does not contain it
+		if _, err := w.createPosition(a, id, 100, 200, "uatom", "uusdc", 1_000_000); err != nil {
+			return err
+		}
+		v := w.allVals()[0]
+		w.record(cf, w.voteCase(a.String(), a, []weightSpec{{id, "1"}}, "corpus:vote-for-out-of-range-pool"))
+		_ = v
+		// epoch 1 is created at the end of this block (account 0 holds the genesis delegations)
+		w.record(cf, w.blockCase(time.Second, "corpus:epoch-created-for-out-of-range-pool"))
+		ctx := w.h.Ctx()
+		w.setFeeCollector(ctx, sdkmath.NewInt(1000))
+		w.record(cf, w.beginCase(sdkmath.NewInt(1000), nil, "corpus:begin-blocker-zero-in-range-liquidity"))
+		w.record(cf, w.blockCase(time.Second, "corpus:finalize-block-zero-in-range-liquidity"))
+	}
+	return nil
+}
+
+// Run generates n cases (plus the fixed corpus) and writes cases + stats into outDir.
 func Run(seed int64, n int, outDir string) error {
-	return fmt.Errorf("c17: harness not built yet")
+	r := emit.NewRand(seed)
+	st := emit.NewStats("C17", seed, "vote: one MsgVoteGauge; tally: one Keeper.Tally on a real staking graph; begin: one Keeper.BeginBlocker on a chosen balance; block: one real FinalizeBlock (emission at begin, epoch creation/pruning at end). Non-trivial: a tally (or block) in which a bonded validator and one of its own delegators both voted, a begin (or block) whose emission is not divisible by the gauge counts; distinct by (votes, delegator votes, overlap, partial, bonded) resp. (balance, gauges)")
+	cf := &emit.CasesFile{Import: "Stake.C17Check", Runner: "run", Type: "c17_case"}
+	if err := corpus(cf, st); err != nil {
+		return fmt.Errorf("corpus: %w", err)
+	}
+	w := newWorld(3, 7, st)
+	defer w.h.Close()
+	if err := w.setupPools(); err != nil {
+		return err
+	}
+	k := w.h.App.LiquidityincentiveKeeper
+	for i := 0; i < 8; i++ {
+		w.mutate(r)
+	}
+	setEpochBlocks := func() {
+		p, err := k.Params.Get(w.h.Ctx())
+		if err != nil {
+			panic(err)
+		}
+		p.EpochBlocks = int64(emit.Pick(r, 1, 2, 3, 5))
+		if err := k.Params.Set(w.h.Ctx(), p); err != nil {
+			panic(err)
+		}
+		w.note("epoch_blocks := %d", p.EpochBlocks)
+	}
+	setEpochBlocks()
+	// pools that are safe to vote for in real blocks (a gauge for pool 3's sibling without
+	// in-range liquidity would halt the chain: that is the corpus case)
+	for i := 0; i < n; i++ {
+		switch k := r.Intn(20); {
+		case k < 6: // vote
+			vs := w.voters()
+			a := vs[r.Intn(len(vs))]
+			malformed := r.Chance(1, 4)
+			sender := a.String()
+			var sa sdk.AccAddress = a
+			if malformed && r.Chance(1, 6) {
+				sender, sa = "not-an-address", nil
+			}
+			w.record(cf, w.voteCase(sender, sa, genWeights(r, w.npools, malformed), "gen"))
+		case k < 9:
+			w.mutate(r)
+			if r.Chance(1, 2) {
+				w.mutate(r)
+			}
+			w.record(cf, w.tallyCase("gen"))
+		case k < 13:
+			w.record(cf, w.beginCase(w.genBalance(r), nil, "gen"))
+		default:
+			if r.Chance(1, 10) {
+				setEpochBlocks()
+			}
+			if r.Chance(1, 3) {
+				w.mutate(r)
+			}
+			// fund the fee collector (on top of what the minute epoch minted)
+			if r.Chance(2, 3) {
+				ctx := w.h.Ctx()
+				w.setFeeCollector(ctx, w.h.Bal(ctx, w.feeCol, bond).Add(w.genBalance(r)))
+			}
+			c := w.blockCase(time.Duration(1+r.Intn(90))*time.Second, "gen")
+			w.record(cf, c)
+			if c.outcome != "ok" {
+				return fmt.Errorf("block failed: %v", c.info["block_error"])
+			}
+		}
+	}
+	if _, err := cf.Write(outDir, "cases", 100); err != nil {
+		return err
+	}
+	return st.Write(outDir)
 }
